@@ -256,7 +256,7 @@ def sanitizer_env(outdir):
                            "handle_abort=0:max_malloc_fill_size=256:malloc_fill_byte=190:"
                            "quarantine_size_mb=16:detect_odr_violation=0")
     env["UBSAN_OPTIONS"] = "print_stacktrace=1:halt_on_error=1:exitcode=86"
-    env["LSAN_OPTIONS"] = "exitcode=0:print_suppressions=0"
+    env["LSAN_OPTIONS"] = "print_suppressions=0"
     env["TSAN_OPTIONS"] = "halt_on_error=0:second_deadlock_stack=1:exitcode=0:history_size=4"
     env["HWLOC_HIDE_ERRORS"] = "2"
     env["LANG"] = "C"
@@ -266,6 +266,7 @@ def sanitizer_env(outdir):
               "HWLOC_LIBXML", "HWLOC_LIBXML_IMPORT", "HWLOC_LIBXML_EXPORT"):
         env.pop(k, None)
     env["VERIF_REPO_ROOT"] = REPO
+    env["MSAN_OPTIONS"] = "exit_code=86:halt_on_error=1:allocator_may_return_null=1"
     return env
 
 
@@ -277,6 +278,11 @@ def run_workers(exe, outdir, seed, cases, tier, nworkers=None, extra_args=(), en
     os.makedirs(outdir, exist_ok=True)
     env = sanitizer_env(outdir)
     if env_extra:
+        env_extra = dict(env_extra)
+        x = env_extra.pop("ASAN_OPTIONS_EXTRA", None)
+        if x:
+            env["ASAN_OPTIONS"] += ":" + x
+            env["MSAN_OPTIONS"] += ":" + x
         env.update(env_extra)
     procs = []
     for k in range(n):
@@ -386,9 +392,12 @@ def classify_crash(rec):
     if m:
         fr = _repo_frames(text[m.start():], 3)
         return "lsan:leak@%s" % ("<".join(fr) if fr else "?")
-    m = re.search(r"^\S+: (\S+?):(\d+): (\S+): Assertion [`'](.*)' failed", text, re.M)
+    m = re.search(r"^\S+: (\S+?):(\d+): (.*?): Assertion [`'](.*)' failed", text, re.M)
     if m:
-        return "assert@%s:%s" % (m.group(3), re.sub(r"\s+", "", m.group(4))[:80])
+        fn = m.group(3)
+        if "(" in fn:      # clang prints the whole signature
+            fn = re.findall(r"(\w+)\s*\(", fn)[0]
+        return "assert@%s:%s" % (fn, re.sub(r"\s+", "", m.group(4))[:80])
     m = re.search(r"WARNING: MemorySanitizer: (\S+)", text)
     if m:
         fr = _repo_frames(text[m.start():])
